@@ -52,10 +52,10 @@ CHECKS.update({
     "C16": ("QDegen.tla, QAff.tla, Trace_QNum.tla",
             "TLC model check of the special-value paths (0/0, x/0, overflow) + class-directed trace validation",
             "QDegen.tla explores the pipeline in an extended-real algebra so the NaN/Inf paths are enumerated by TLC; degenerate row-class mixtures "
-            "(zeros, constant, one-sided, offset, subnormal, near-max, mixed, single, mixed-max) x six qtypes x axis x group size x dtype go through "
+            "(zeros, constant, one-sided, offset, subnormal, underflowing, any binade, huge, near-max, mixed, single, mixed-max) x six qtypes x axis x group size x dtype go through "
             "quantize_weight and are validated for finiteness and for the C01/C02 bounds; zero-weight Linear/Conv2d layers and calibration on "
             "zero/constant batches followed by inference are recorded as Finite events.",
-            "Known findings (near-max overflow, zero calibration batch with float8 activations) are matched by input class only; anything else is a violation.",
+            "The known finding (near-max overflow) is matched by the position of the non-finite values (only in rows touching 0.49 x finfo.max); anything else is a violation. The zero-batch finding was repaired.",
             "DESIGN.md 5/C16"),
     "C14": ("Config.tla, Trace_Config.tla",
             "TLC exhaustive model check of the argument-validation decision tables + replay of every configuration + TLC trace validation",
